@@ -10,6 +10,7 @@ import itertools
 import json
 
 from common import hexs
+import access as X
 
 
 def run_history(evs):
@@ -73,7 +74,7 @@ def run_history(evs):
             if not tk.done():
                 tk.cancel()
         loop.settle()
-        return writes, proto._pack_seq
+        return writes, X.pget(proto, "pack_seq")
     finally:
         asyncio.set_event_loop(None)
         loop.close()
@@ -209,7 +210,7 @@ def run_overlap(evs):
             if not tk.done():
                 tk.cancel()
         loop.settle()
-        return trace, proto._pack_seq
+        return trace, X.pget(proto, "pack_seq")
     finally:
         asyncio.set_event_loop(None)
         loop.close()
